@@ -88,6 +88,29 @@ def anti_starvation(ctx):
             a, p = literal(tv)
             if (not p) == tmo[1]:
                 cnt = a
+            if cnt is None and isinstance(tv, Op) and tv.op == "==" and tmo[1]:
+                # up-counter form (counter == K): decided here only for what can be shown with a witness - the counter's declared range must contain K
+                ctr_ = [x for x in tv.args if isinstance(x, Obj) and x.cls == "Signal"]
+                K_ = [x for x in tv.args if not (isinstance(x, Obj) and x.cls == "Signal")]
+                mx_ = ctr_[0].kwargs.get("max") if len(ctr_) == 1 else None
+                par_ = sorted(x for x in (support(K_[0]) if len(K_) == 1 else set()) if x.startswith("settings."))
+                if mx_ is not None and len(par_) == 1:
+                    from ..bits import ieval
+                    wit_ = None
+                    try:
+                        for n_ in range(2, 200):
+                            kv_, mv_ = ieval(K_[0], {par_[0]: n_}), ieval(mx_, {par_[0]: n_})
+                            if kv_ >= (1 << max(1, (mv_ - 1).bit_length())):
+                                wit_ = (n_, kv_, mv_)
+                                break
+                    except Exception:
+                        wit_ = None
+                    ob.instance("nphases=%d state %s: up-counter time-out %s, declared max=%s" % (nph, st, key(tv), key(mx_)), {"witness": wit_})
+                    if wit_:
+                        ob.refute("timeout-unreachable:%s:%d" % (st, nph), "the time-out %s compares a counter declared Signal(max=%s) with %s: for %s = %d the counter has %d bit(s) and "
+                                  "never reaches %d - the time-out never fires and a continuous stream in one direction starves the other" %
+                                  (key(tv), key(mx_), key(K_[0]), par_[0], wit_[0], max(1, (wit_[2] - 1).bit_length()), wit_[1]), ctr_[0].loc)
+                        continue
             if not ob.need(cnt is not None and isinstance(cnt, (Obj, Sym)), "nphases=%d: time-out %s is not (counter == 0)" % (nph, lkey(tmo))):
                 continue
             ds = v.drivers(cnt)
